@@ -42,6 +42,42 @@ for _pid, _txt in {
 }.items():
     CHECKS[_pid] = dict(category="model_checking", technique=REQ_TECH, text=_txt, note=REQ_NOTE, design="§6 " + _pid)
 
+CHECKS["C11"] = dict(
+    category="exploration",
+    technique="TLA+ decision table WireCodec.tla (layout, extraction, decoder and re-encoder from the protocol specs; TLC checks their agreement on every "
+              "row and all prefixes) exported as JSON; Go driver vdrv-codec: differential replay against the reference codec and the real partial codecs",
+    text="every TLC-enumerated request shape (v3,v4,v5,DSEv1,DSEv2 x QUERY/EXECUTE/BATCH x all option subsets legal for the version x value lists incl. "
+         "null/unset/empty/large x 0..4 batch children x id/string lengths) is concretised by the reference codec, byte-identical to the specification's "
+         "layout, and replayed into codecs.CustomRawCodec on 5 decode paths: same query string / id / children / consistency as the specification and the "
+         "reference decoder, byte-exact re-encoding, error on every truncation inside the leading fields, no panic/hang/out-of-input slice on all prefixes, "
+         "seeded mutants and random bytes",
+    note="Trusts go-cassandra-native-protocol as the definition of a valid body and its lz4/snappy compressors; optional parameters carry fixed numeric "
+         "values, contents are filler + seeded random; well-delimited but invalid bodies (bad consistency/batch type, n<-2 values, zero/negative lengths) "
+         "and cuts in the opaque remainder carry no accept/reject verdict; inputs announcing >1 MiB strings are not generated as mutants; arbitrary bytes "
+         "are random, not coverage-guided.",
+    design="§6 C11")
+CHECKS["C19"] = dict(
+    category="exploration",
+    technique="TLA+ decision table + handshake machine (AstraTLS.tla), TLC-exported rows replayed with freshly minted x509 chains against the real "
+              "resolver / endpoints / proxycore.Connect",
+    text="For every abstract server chain (5 signers x extra cert x 3 SANs x 3 validities + empty) x {metadata, contact-point node, peers node} x "
+         "{DNS, IP bundle host} x {TLS1.2, 1.3} the real code accepts exactly the chains that verify against the bundle CA for the bundle host now; "
+         "rejected servers complete no handshake, see no client certificate and receive zero application bytes; accepted servers see the bundle's "
+         "client certificate and the contact point / host id as SNI.",
+    note="Bundle built as LoadBundleZip does but with a private root pool (system pool and zip parsing not exercised); hosts 'localhost' and "
+         "'127.0.0.1'; Go crypto/tls servers; CA validity not varied.",
+    design="§6 C19")
+CHECKS["C20"] = dict(
+    category="exploration",
+    technique="TLA+ decision table (Config.tla) of the documented option tables and validity predicate; every row started through proxy.Run in-process "
+              "(thorough: and the real binary) against the fake backend, effects observed on the wire",
+    text="Every documented spelling of protocol-version / max-protocol-version / consistency names (all letter cases in thorough) via flag, environment "
+         "and YAML selects exactly the named value (STARTUP version at the backend, client version gate, consistency seen at the backend); every invalid "
+         "configuration class of the statement returns non-zero and leaves no listener.",
+    note="Version order from the help text, v5-vs-DSE pairs left open; malformed YAML syntax / unreadable bundle / source precedence are only observed "
+         "(the statement does not name them); 'started' = --bind accepts TCP.",
+    design="§6 C20")
+
 NOT_YET = "check not built yet in this session (planned, see DESIGN.md §6)"
 
 
